@@ -104,7 +104,9 @@ class FortranNameManager:
 
     def name_function(self, var):
         """Return the identifier for a function."""
-        return self.function_map.get_or_make_name_for_key(var)
+        # Same prefix as the other generated procedure names, so that the
+        # result is an identifier whatever the function is called.
+        return self.function_map.get_or_make_name_for_key(var, prefix="drtf_")
 
     def make_unique_fortran_name(self, prefix):
         return self.local_map.get_mapped_identifier_without_key("drtf_"+prefix)
